@@ -394,8 +394,10 @@ class LSMTree(Entity):
 
         # Check each level, L0 first (most recent)
         for level in self._levels:
-            # L0: check all SSTables (may have overlapping key ranges)
-            for sstable in reversed(level):
+            # L0: check all SSTables (may have overlapping key ranges).
+            # Iterate over a snapshot: a compaction may rewrite this level
+            # while the read below is waiting for its page I/O.
+            for sstable in level[::-1]:
                 self._total_sstables_checked += 1
 
                 if not sstable.contains(key):
@@ -479,7 +481,8 @@ class LSMTree(Entity):
 
         # Collect from SSTables (newer levels first)
         for level in self._levels:
-            for sstable in reversed(level):
+            # Snapshot: the level may be rewritten by a compaction during the yield
+            for sstable in level[::-1]:
                 page_reads = sstable.page_reads_for_scan(start_key, end_key)
                 if page_reads > 0:
                     yield page_reads * self._sstable_read_latency
